@@ -32,17 +32,28 @@ def log(*a):
     print(*a, flush=True)
 
 
+REPO = os.environ.get("VERIF_REPO", "/repo")  # the registered checks always use /repo; sweeps may point at a snapshot
+
+
 def build():
     os.makedirs(BIN_DIR, exist_ok=True)
     out = os.path.join(BIN_DIR, "harness.%d.test" % os.getpid())
     t0 = time.time()
-    p = subprocess.run(["go", "test", "-c", "-tags", "verif", "-o", out, "."], cwd=HARNESS, env=ENV,
+    cmd = ["go", "test", "-c", "-tags", "verif", "-o", out]
+    if REPO != "/repo":
+        modfile = os.path.join(BIN_DIR, "go.%d.mod" % os.getpid())
+        txt = open(os.path.join(HARNESS, "go.mod")).read().replace("=> /repo", "=> " + REPO)
+        open(modfile, "w").write(txt)
+        shutil.copy(os.path.join(HARNESS, "go.sum"), modfile[:-4] + ".sum")
+        cmd += ["-modfile=" + modfile]
+        ENV["VERIF_REPO"] = REPO
+    p = subprocess.run(cmd + ["."], cwd=HARNESS, env=ENV,
                        stdout=subprocess.PIPE, stderr=subprocess.STDOUT, text=True)
     if p.returncode != 0 or not os.path.exists(out):
         log("BUILD FAILED (harness or /repo does not compile with -tags verif):")
         log(p.stdout[-6000:])
         return None
-    log("built harness against /repo working tree in %.1fs" % (time.time() - t0))
+    log("built harness against %s working tree in %.1fs" % (REPO, time.time() - t0))
     return out
 
 
